@@ -77,7 +77,18 @@ func (s *Netceptor) listen(ctx context.Context, service string, tlscfg *tls.Conf
 					// a node ID may itself contain ':', so take the node part of the address
 					remoteNode = remoteAddr.node
 				}
-				clientTLSCfg.VerifyPeerCertificate = ReceptorVerifyFunc(tlscfg, [][]byte{}, remoteNode, ExpectedHostnameTypeReceptor, VerifyClient, s.Logger)
+				verifyNodeID := ReceptorVerifyFunc(tlscfg, [][]byte{}, remoteNode, ExpectedHostnameTypeReceptor, VerifyClient, s.Logger)
+				verifyConfigured := tlscfg.VerifyPeerCertificate
+				clientTLSCfg.VerifyPeerCertificate = func(rawCerts [][]byte, verifiedChains [][]*x509.Certificate) error {
+					// keep the verification the TLS configuration asked for (pinned client certificates)
+					if verifyConfigured != nil {
+						if err := verifyConfigured(rawCerts, verifiedChains); err != nil {
+							return err
+						}
+					}
+
+					return verifyNodeID(rawCerts, verifiedChains)
+				}
 
 				return clientTLSCfg, nil
 			}
